@@ -11,6 +11,7 @@
 // One "case" of the sharded runner = the expansion of one frontier state (all enabled operations tried from it).
 #include "c14_world.hpp"
 
+#include <array>
 #include <dirent.h>
 #include <unordered_set>
 
@@ -264,6 +265,54 @@ int main(int argc, char** argv) {
         Runner R; R.name = space; R.total = N_KNOWN; R.fn = witness_case;
         R.describe = [](uint64_t i) { return "{\"known_defect\":" + jstr(KNOWN_DEFECTS[i].id) + ",\"what\":" + jstr(KNOWN_DEFECTS[i].what) + ",\"history\":" + jstr(KNOWN_DEFECTS[i].history) + "}"; };
         R.extra_json = "\"known_defects_present\":" + guardJson;
+        return R.main_tail(a);
+    }
+    if (space == "longtext") {
+        // Range content operations on one long Text node: lengths and offsets around the 4000-character stack buffers of
+        // DOMRangeImpl::traverseTextNode.  doc -> r -> [t(len L), e]; range A = (t,o)-(r,2), range B = (r,0)-(t,o); operation in
+        // {cloneContents, extractContents, deleteContents}; expected strings by substring arithmetic.
+        static const size_t LENS[] = {10, 3998, 3999, 4000, 4001, 7999, 8001, 12000};
+        static const int NL = sizeof(LENS) / sizeof(LENS[0]);
+        struct LT {
+            static std::vector<size_t> offs(size_t L) {
+                std::set<size_t> o = {0, 1, 2, L / 2, L - 2, L - 1, L};
+                for (size_t x : {3997u, 3998u, 3999u, 4000u, 4001u, 4002u}) { if (x <= L) o.insert(x); if (L >= x) o.insert(L - x); }
+                return std::vector<size_t>(o.begin(), o.end());
+            }
+        };
+        static std::vector<std::array<size_t, 4>> CASES;   // len index, offset, side, op
+        for (int li = 0; li < NL; li++) for (size_t o : LT::offs(LENS[li])) for (size_t side = 0; side < 2; side++) for (size_t op = 0; op < 3; op++) CASES.push_back({(size_t)li, o, side, op});
+        Runner R; R.name = space; R.total = CASES.size();
+        R.fn = [](uint64_t i, Ctx& c) {
+            auto cs = CASES[i];
+            size_t L = LENS[cs[0]], o = cs[1]; bool left = cs[2] == 0; int op = (int)cs[3];
+            std::u16string txt; for (size_t k = 0; k < L; k++) txt += (char16_t)(u'a' + (k % 23));
+            static const XMLCh ls[] = {'L', 'S', 0};
+            DOMImplementation* impl = DOMImplementationRegistry::getDOMImplementation(ls);
+            DOMDocument* d = impl->createDocument();
+            static const XMLCh rN[] = {'r', 0}, eN[] = {'e', 0};
+            DOMElement* r = d->createElement(rN); d->appendChild(r);
+            DOMText* t = d->createTextNode((const XMLCh*)txt.c_str());
+            DOMElement* e = d->createElement(eN);
+            if (left) { r->appendChild(t); r->appendChild(e); } else { r->appendChild(e); r->appendChild(t); }
+            DOMRange* rg = d->createRange();
+            if (left) { rg->setStart(t, o); rg->setEnd(r, 2); } else { rg->setStart(r, 0); rg->setEnd(t, o); }
+            std::u16string sel = left ? txt.substr(o) : txt.substr(0, o), rest = left ? txt.substr(0, o) : txt.substr(o);
+            std::string where = "\"len\":" + std::to_string(L) + ",\"offset\":" + std::to_string(o) + ",\"side\":" + (left ? "\"start-in-text\"" : "\"end-in-text\"") + ",\"op\":" + std::to_string(op);
+            DOMDocumentFragment* f = nullptr;
+            if (op == 0) f = rg->cloneContents(); else if (op == 1) f = rg->extractContents(); else rg->deleteContents();
+            std::u16string after = (const char16_t*)t->getData();
+            if (after != (op == 0 ? txt : rest)) c.violation("longtext-source-node", where + ",\"problem\":\"text left in the tree has length " + std::to_string(after.size()) + "\"");
+            if (f) {
+                DOMNode* k = left ? f->getFirstChild() : f->getLastChild();
+                std::u16string got = k && k->getNodeType() == DOMNode::TEXT_NODE ? std::u16string((const char16_t*)k->getNodeValue()) : u"<no text node>";
+                if (got != sel) c.violation("longtext-fragment", where + ",\"problem\":\"fragment text has length " + std::to_string(got.size()) + " expected " + std::to_string(sel.size()) + "\"");
+                c.count("fragments_compared");
+            }
+            c.count("range_content_ops_on_long_text");
+            d->release();
+        };
+        R.describe = [](uint64_t i) { auto cs = CASES[i]; return "{\"len\":" + std::to_string(LENS[cs[0]]) + ",\"offset\":" + std::to_string(cs[1]) + ",\"side\":" + std::to_string(cs[2]) + ",\"op\":" + std::to_string(cs[3]) + "}"; };
         return R.main_tail(a);
     }
     if (space != "explore") { fprintf(stderr, "unknown space\n"); return 2; }
